@@ -45,7 +45,12 @@ def make_corpus(tier, seed, n):
     for k, p in enumerate(generate_cases(c08.random_problems(tier), n, seed * 8009)):
         if p["shape"] in ("diagonal",):
             continue
-        reqs.append({"id": k, "assignment": p["assignment"], "formats": p["formats"], "kinds": p["kinds"],
+        kinds = list(p["kinds"])
+        if k % 4 == 0:
+            # a kind may be requested more than once (the CLI's -t is repeatable); the text is whatever it is,
+            # but it must be the same in every process
+            kinds = kinds + [kinds[0]] if len(kinds) > 1 else kinds + ["assemble", kinds[0]]
+        reqs.append({"id": k, "assignment": p["assignment"], "formats": p["formats"], "kinds": kinds,
                      "language": p["language"]})
     return reqs
 
